@@ -222,8 +222,63 @@ def c09_bounded(tier, seed):
                     br.failures.append({"clause": "C09/labels-of-removed-blocks-usable-by-later-patches", "witness": {"delete_first": delete_first}, "detail": "branch edge does not lead to foo's referent"})
             except Exception as ex:
                 br.failures.append({"clause": "C09/labels-of-removed-blocks-usable-by-later-patches", "witness": {"delete_first": delete_first}, "detail": "%s: %s" % (type(ex).__name__, str(ex)[:100])})
-        br.nontrivial = len(distinct)
-        br.bound += "; monitor evaluated after %d insert/delete calls" % calls
+        # a module that already holds / comes to hold a ZERO-SIZED block sharing an address with another block: a code block with
+        # an incoming branch that is followed by data cannot be removed (doc/Deletion.md) and stays as an empty block; a later
+        # context must order it before the block at the same address, as the IR does
+        from gtirb_test_helpers import add_data_block
+
+        def zs_build():
+            ir, m = create_test_module(gtirb.Module.FileFormat.ELF, gtirb.Module.ISA.X64)
+            _, tbi = add_text_section(m, address=0x1000)
+            foo = add_code_block(tbi, b"\x0f\x0b")
+            dat = add_data_block(tbi, b"\x2a")
+            foo_s = add_symbol(m, "foo", foo)
+            bar = add_code_block(tbi, b"\xeb\x00", {(1, 1): gtirb.SymAddrConst(0, foo_s)})
+            add_symbol(m, "bar", bar)
+            tail = add_code_block(tbi, b"\x90\xc3")
+            add_edge(ir.cfg, bar, foo, gtirb.EdgeType.Branch)
+            return ir, m, {"foo": foo, "data": dat, "bar": bar, "tail": tail}
+
+        def zs_summary(ir, m):
+            blocks = sorted(m.byte_blocks, key=lambda b: (b.address, b.size != 0))
+            idx = {id(b): i for i, b in enumerate(blocks)}
+            node = lambda n: "proxy" if isinstance(n, gtirb.ProxyBlock) else idx.get(id(n), "detached")
+            return json.dumps({"blocks": [(type(b).__name__, b.address, b.size, bytes(b.contents).hex()) for b in blocks],
+                               "symbols": sorted((s_.name, node(s_.referent), s_.at_end) for s_ in m.symbols if s_.name in ("foo", "bar")),
+                               "edges": sorted((node(e.source), node(e.target), e.label.type.name) for e in ir.cfg)}, sort_keys=True)
+        for dels in (("foo", "data"), ("foo", "bar"), ("foo", "data", "tail"), ("data", "tail"), ("foo", "tail")):
+            br.cases += 1
+            ir, m, B = zs_build()
+            rc = RW.RewritingContext(m, [])
+            for n_ in dels:
+                rc.delete_at(B[n_], 0, B[n_].size)
+            with CacheMonitor() as mon:
+                try:
+                    rc.apply()
+                    batch = zs_summary(ir, m)
+                except Exception as ex:       # noqa
+                    batch = "EXC %s" % type(ex).__name__
+            for p in sorted(set(mon.problems))[:2]:
+                br.failures.append({"clause": "C09/cache-answers-agree-with-the-IR-after-every-modification", "witness": {"module": "foo: ud2 / .byte 42 / bar: jmp foo / nop; ret", "delete": dels}, "detail": p})
+            ir2, m2, B2 = zs_build()
+            seq = None
+            for n_ in dels:              # already in address order
+                rc2 = RW.RewritingContext(m2, [])
+                rc2.delete_at(B2[n_], 0, B2[n_].size)
+                with CacheMonitor() as mon2:
+                    try:
+                        rc2.apply()
+                    except Exception as ex:       # noqa
+                        seq = "EXC %s" % type(ex).__name__
+                        break
+                for p in sorted(set(mon2.problems))[:2]:
+                    br.failures.append({"clause": "C09/cache-answers-agree-with-the-IR-after-every-modification", "witness": {"module": "foo: ud2 / .byte 42 / bar: jmp foo / nop; ret", "delete one at a time": dels}, "detail": p})
+            seq = seq or zs_summary(ir2, m2)
+            if batch != seq:
+                br.failures.append({"clause": "C09/batch-equals-one-at-a-time", "witness": {"module": "foo: ud2 / .byte 42 / bar: jmp foo / nop; ret", "delete": dels},
+                                    "detail": "batch %s / one at a time %s" % (batch[:300], seq[:300])})
+        br.nontrivial = len(distinct) + 5
+        br.bound += "; plus 5 deletion sets on a module where a deleted code block has to stay as a zero-sized block; monitor evaluated after %d insert/delete calls" % calls
         return br
     return run
 
@@ -247,7 +302,8 @@ def c10_bounded(tier, seed):
         br = BResult()
         br.bound = ("no-op apply on every module shape of bounded/scen.py (kinds x functions x CFI layouts x annotations x data section); split/join round trip on "
                     "all layouts of <= 3 code or data blocks (overlapping and zero-sized included) over a 5-byte interval with symbolic expressions and one table; "
-                    "alignment after rewrites on a 3-block function with alignments 1/2/4/8/16 on the block after the edit and every single edit")
+                    "alignment after rewrites on a 3-block function with alignments 1/2/4/8/16 on the block after the edit and every single edit; "
+                    "an aligned block starting inside an unaligned overlapping block, alignments 2..16, 1/2/3/5 bytes inserted before the group")
         br.clauses = ["C10/no-op-apply-is-the-identity", "C10/split-preserves-block-bytes-and-addresses", "C10/join-after-split-restores-the-interval",
                       "C10/alignment-requirements-hold-after-a-rewrite", "C10/padding-is-nops-or-zeros-covered-by-blocks"]
         distinct = set()
@@ -268,7 +324,7 @@ def c10_bounded(tier, seed):
                     tuple(sorted((k, v.offset) for k, v in bi_.symbolic_expressions.items())), tuple(sorted(table.get(bi_, {}).items())))
         for k in (1, 2, 3):
             for layout in itertools.combinations(cands, k):
-                for data in (False, True):
+                for data, torder in ((False, "asc"), (True, "asc"), (False, "desc"), (True, "mixed")):
                     bi_ = gtirb.ByteInterval(contents=bytes(range(0x10, 0x10 + S)), address=0x1000)
                     bl = []
                     for (o, s) in layout:
@@ -278,11 +334,13 @@ def c10_bounded(tier, seed):
                     for p in range(S):
                         bi_.symbolic_expressions[p] = gtirb.SymAddrConst(p, sym)
                     table = OffsetMapping()
-                    table[bi_] = {p: "c%d" % p for p in range(S + 1)}
+                    # entries recorded in ascending, descending or mixed position order (a dict promises no order)
+                    ps_ = {"asc": list(range(S + 1)), "desc": list(range(S, -1, -1)), "mixed": [3, 0, 5, 1, 4, 2]}[torder]
+                    table[bi_] = {p: "c%d" % p for p in ps_}
                     before = snap(bi_, table, bl)
                     pre = [(b.address, bytes(b.contents)) for b in bl]
                     br.cases += 1
-                    distinct.add(("sj", layout, data))
+                    distinct.add(("sj", layout, data, torder))
                     try:
                         parts = split_byte_interval(bi_, None, [table])
                         if [(b.address, bytes(b.contents)) for b in bl] != pre:
@@ -330,6 +388,37 @@ def c10_bounded(tier, seed):
                             cov[q] = 1
                     if i.size and not all(cov):
                         br.failures.append({"clause": "C10/padding-is-nops-or-zeros-covered-by-blocks", "witness": desc, "detail": "uncovered bytes in interval at %#x" % i.address})
+        # the aligned block is not the first block of its group of overlapping blocks: A (unaligned) contains the aligned block B
+        for al, grow in itertools.product((2, 4, 8, 16), (1, 2, 3, 5)):
+            ir, m = create_test_module(gtirb.Module.FileFormat.ELF, gtirb.Module.ISA.X64)
+            _, tbi = add_text_section(m, address=0x1000)
+            head = add_code_block(tbi, b"\x90" * (al + 1))
+            a_off = head.size
+            asz = al + 4
+            tbi.contents = bytes(tbi.contents) + b"\x90" * (asz - 1) + b"\xc3"
+            tbi.size = len(tbi.contents)
+            A_ = gtirb.CodeBlock(offset=a_off, size=asz)
+            A_.byte_interval = tbi
+            b_off = 2 * al                                      # first aligned offset inside A, after its start
+            B_ = gtirb.CodeBlock(offset=b_off, size=a_off + asz - b_off)
+            B_.byte_interval = tbi
+            add_edge(ir.cfg, head, A_, gtirb.EdgeType.Fallthrough)
+            add_edge(ir.cfg, A_, add_proxy_block(m), gtirb.EdgeType.Return)
+            add_edge(ir.cfg, B_, add_proxy_block(m), gtirb.EdgeType.Return)
+            _auxdata.alignment.set(m, {B_: al})
+            assert B_.address % al == 0 and A_.address % al != 0
+            rc = RW.RewritingContext(m, [])
+            rc.insert_at(head, 0, scen.mkpatch("\n".join(["nop"] * grow)))
+            br.cases += 1
+            distinct.add(("align-overlap", al, grow))
+            desc = {"layout": "head | A (unaligned, %d bytes) containing B (alignment %d) at offset %d of A" % (asz, al, b_off - a_off), "bytes inserted before": grow}
+            try:
+                rc.apply()
+            except Exception as e:      # noqa
+                br.failures.append({"clause": "C10/alignment-requirements-hold-after-a-rewrite", "witness": desc, "detail": "%s: %s" % (type(e).__name__, str(e)[:80])})
+                continue
+            if B_.address % al:
+                br.failures.append({"clause": "C10/alignment-requirements-hold-after-a-rewrite", "witness": desc, "detail": "B is at %#x after the rewrite" % B_.address})
         br.nontrivial = len(distinct)
         return br
     return run
